@@ -59,6 +59,56 @@ def _first_arg(body, m):
     return _ws(cur)[:60]
 
 
+# ---- site keys that do not depend on the NAMES of C locals ---------------------------------------------------------------
+# key = callee(first argument) with every identifier of the argument that is not a called function, not a struct field (after
+# `.` / `->`), not an ALL-CAPS constant, not `janet_vm` and not a word of a cast replaced by `$k`, k = order of first appearance
+# among the function's create / close / wrap sites.  A renamed local gives the same keys; a different argument does not.
+_KEEP = {"janet_vm", "const", "char", "void", "int", "unsigned", "signed", "struct", "long", "short", "int32_t", "uint32_t",
+         "uint8_t", "int64_t", "uint64_t", "size_t", "constchar", "FILE", "NULL"}
+_IDENT = re.compile(r"(?<![\w.>])([A-Za-z_]\w*)(?!\w*\()")
+
+
+def _arg_idents(arg):
+    out = []
+    for m in _IDENT.finditer(arg):
+        w = m.group(1)
+        if w in _KEEP or w.upper() == w:
+            continue
+        if m.start() >= 2 and arg[m.start() - 2:m.start()] == "->":
+            continue
+        a, b = m.start(1), m.end(1)
+        if a >= 1 and arg[a - 1] == "(" and b < len(arg) - 1 and arg[b] == ")" and (arg[b + 1].isalnum() or arg[b + 1] in "_(&*"):
+            continue        # (Type)expr
+        out.append((m.start(1), m.end(1), w))
+    return out
+
+
+def canon_arg(arg, idmap, grow=True):
+    """arg: whitespace-free first argument; idmap: identifier -> number, extended in order of first appearance when grow"""
+    res, last = "", 0
+    for a, b, w in _arg_idents(arg):
+        if w not in idmap:
+            if not grow:
+                continue
+            idmap[w] = len(idmap) + 1
+        res += arg[last:a] + "$%d" % idmap[w]
+        last = b
+    return res + arg[last:]
+
+
+def site_key(callee, arg, idmap, grow=True):
+    return "%s(%s)" % (callee, canon_arg(arg, idmap, grow)[:32])
+
+
+def ident_map(name, body):
+    """the identifier numbering of function `name`: its create / close / wrap sites in source order"""
+    idmap = {}
+    for m, _g in sites(body, _call_rx(CREATE + CLOSE + WRAP)):
+        if m.group(1) != name:
+            canon_arg(_first_arg(body, m), idmap)
+    return idmap
+
+
 def _kind(callee):
     if callee in CREATE:
         return "create"
@@ -84,12 +134,13 @@ def extract(tree):
             defined.add(name)
             has_create = any(m.group(1) in CREATE for m, _ in sites(body, rx_fd))
             seen = {}
+            idmap = ident_map(name, body)
             for m, guards in sites(body, rx_all if has_create else rx_fd):
                 callee = m.group(1)
                 if callee == name:
                     continue
                 kind = _kind(callee)
-                key = callee if kind == "raise" else "%s(%s)" % (callee, _first_arg(body, m)[:32])
+                key = callee if kind == "raise" else site_key(callee, _first_arg(body, m), idmap, grow=False)
                 seen[key] = seen.get(key, 0) + 1
                 if seen[key] > 1:
                     key += "#%d" % seen[key]
@@ -123,7 +174,8 @@ def render(tree):
          "namespace JanetModel.Gen.Fds", ""]
     o.append("/-- every descriptor-creating / -closing / -wrapping call, and (in functions that create descriptors) every call that can")
     o.append("    raise: (file, function, kind, key = callee(first argument)#occurrence, enclosing conditions outermost first, each")
-    o.append("    cut to 44 characters; none for `raise`), in source order -/")
+    o.append("    cut to 44 characters; none for `raise`), in source order.  Identifiers of the first argument that name C locals /")
+    o.append("    parameters appear as `$k` (k-th distinct one among the function's sites): the keys do not change when a local is renamed -/")
     o.append("abbrev fdSites : List (String × String × String × String × List String) := [")
     o.append(",\n".join("  (%s, %s, %s, %s, [%s])" % (_lstr(f), _lstr(fn), _lstr(k), _lstr(c), ", ".join(_lstr(g) for g in gs))
                         for f, fn, k, c, gs in r["fd"]))
